@@ -23,23 +23,74 @@ class Evo:
         self.get_pre = self.cls.methods.get('GetPreimages')
         if not (self.get_image and self.get_inverse and self.get_pre):
             raise AnalysisError('public evolvent queries vanished')
-        fwd = self._private_callees(self.get_image)
-        inv = self._private_callees(self.get_inverse)
+        fwd = self._closure(self.get_image)
+        inv = self._closure(self.get_inverse)
         fd = [f for f in fwd if self._has_level_loop(f)]
-        ft = [f for f in fwd if not self._has_level_loop(f)]
         idn = [f for f in inv if self._has_level_loop(f)]
-        it_ = [f for f in inv if not self._has_level_loop(f)]
-        if len(fd) != 1 or len(ft) != 1 or len(idn) != 1 or len(it_) != 1:
-            raise AnalysisError(f'forward/inverse query structure not recognised: {[f.name for f in fwd]}, '
+        if len(fd) != 1 or len(idn) != 1:
+            raise AnalysisError(f'forward/inverse descent not recognised: {[f.name for f in fwd]}, '
                                 f'{[f.name for f in inv]}')
-        self.forward, self.p2d = fd[0], ft[0]          # descent, cube -> box
-        self.d2p, self.inverse = it_[0], idn[0]        # box -> cube, inverse descent
-        fwd, inv = [self.forward, self.p2d], [self.d2p, self.inverse]
-        self.heavy = {n for n in self.cls.methods if n not in (m.name for m in (fwd + inv)) and
-                      n.startswith('_') and not n.startswith('__init')
-                      and n not in ('__init__',)}
-        self.node_fn = self._level_callee(self.forward)
-        self.numbr_fn = self._level_callee(self.inverse)
+        self.forward, self.inverse = fd[0], idn[0]
+        # functions called from inside the level loops (node / number rules and digit helpers)
+        self.level_callees_fwd = self._level_callees(self.forward)
+        self.level_callees_inv = self._level_callees(self.inverse)
+        below = set(self.level_callees_fwd) | set(self.level_callees_inv)
+        for g in list(below):
+            below |= set(self._closure(g))
+        # coordinate transforms: the remaining functions that compute (not pure delegators)
+        ft = [f for f in fwd if f is not self.forward and f not in below and not self._is_delegator(f)]
+        it_ = [f for f in inv if f is not self.inverse and f not in below and not self._is_delegator(f)]
+        if len(ft) != 1 or len(it_) != 1:
+            raise AnalysisError(f'coordinate transforms not recognised: {[f.name for f in ft]}, {[f.name for f in it_]}')
+        self.p2d, self.d2p = ft[0], it_[0]
+        self.node_fn = self._array_callee(self.forward, self.level_callees_fwd)
+        self.numbr_fn = self._array_callee(self.inverse, self.level_callees_inv)
+        self.heavy = {f.name for f in (self.node_fn, self.numbr_fn) if f is not None}
+
+    def _closure(self, f: FuncInfo) -> List[FuncInfo]:
+        out: List[FuncInfo] = []
+        todo = [f]
+        while todo:
+            g = todo.pop(0)
+            for c in self._private_callees(g):
+                if c not in out and c is not f:
+                    out.append(c)
+                    todo.append(c)
+        return out
+
+    def _is_delegator(self, f: FuncInfo) -> bool:
+        """A function that only forwards to other private methods (no loop, no arithmetic of its own)."""
+        has_calls = bool(self._private_callees(f))
+        has_work = any(isinstance(n, (ast.For, ast.While, ast.AugAssign)) for n in ast.walk(f.node)) or \
+            any(isinstance(n, ast.Assign) and isinstance(n.value, ast.BinOp) for n in ast.walk(f.node))
+        return has_calls and not has_work
+
+    def _level_callees(self, f: FuncInfo) -> List[FuncInfo]:
+        lp = self.level_loop(f)
+        out: List[FuncInfo] = []
+        for n in ast.walk(lp):
+            if isinstance(n, ast.Call):
+                for c in self.ctx.pta.internal_callees(f, n):
+                    if c.cls is self.cls and c is not f and c not in out:
+                        out.append(c)
+        return out
+
+    def _array_callee(self, f: FuncInfo, cands: List[FuncInfo]) -> Optional[FuncInfo]:
+        """Among the functions called in the level loop, the one that receives (orientation) arrays: the node /
+        number rule.  Digit helpers receive scalars only."""
+        arrays = set()
+        for n in ast.walk(f.node):
+            if isinstance(n, ast.Assign) and len(n.targets) == 1 and isinstance(n.targets[0], ast.Name) and \
+                    isinstance(n.value, ast.Call) and isinstance(n.value.func, ast.Attribute) and \
+                    n.value.func.attr in ('zeros', 'ones', 'empty'):
+                arrays.add(n.targets[0].id)
+        best = None
+        for n in ast.walk(self.level_loop(f)):
+            if isinstance(n, ast.Call):
+                for c in self.ctx.pta.internal_callees(f, n):
+                    if c in cands and sum(1 for a in n.args if isinstance(a, ast.Name) and a.id in arrays) >= 1:
+                        best = c
+        return best if best is not None else (cands[0] if cands else None)
 
     def _private_callees(self, f: FuncInfo) -> List[FuncInfo]:
         res: List[FuncInfo] = []
@@ -78,9 +129,9 @@ class Evo:
         return None
 
     def explorer(self, unroll: int = 1, **kw):
-        heavy = {self.node_fn, self.numbr_fn}
+        heavy = {f for f in (self.node_fn, self.numbr_fn) if f is not None}
         return self.ctx.explorer(inline=lambda f, st: f.cls is self.cls and f not in heavy, unroll=unroll,
-                                 max_paths=30000, **kw)
+                                 max_paths=30000, opaque=heavy, **kw)
 
     def density_field(self) -> str:
         """Attribute that bounds the level loop of the forward descent."""
@@ -93,17 +144,19 @@ class Evo:
         raise AnalysisError(f'{self.forward.short}: level loop is not range(self.<density>)')
 
     def radix_field(self) -> str:
-        """Attribute multiplied into the remainder in the digit extraction."""
-        lp = self.level_loop(self.forward)
-        for n in ast.walk(lp):
-            if isinstance(n, ast.AugAssign) and isinstance(n.op, ast.Mult) and isinstance(n.value, ast.Attribute) \
-                    and isinstance(n.value.value, ast.Name) and n.value.value.id == self.forward.param_names[0]:
-                return n.value.attr
-            if isinstance(n, ast.Assign) and isinstance(n.value, ast.BinOp) and isinstance(n.value.op, ast.Mult):
-                for side in (n.value.left, n.value.right):
-                    if isinstance(side, ast.Attribute) and isinstance(side.value, ast.Name) and \
-                            side.value.id == self.forward.param_names[0]:
-                        return side.attr
+        """Attribute multiplied into the remainder in the digit extraction (in the descent or a digit helper)."""
+        selfn = self.forward.param_names[0]
+        places = [self.level_loop(self.forward)] + [g.node for g in self.level_callees_fwd if g is not self.node_fn]
+        for lp in places:
+            for n in ast.walk(lp):
+                if isinstance(n, ast.AugAssign) and isinstance(n.op, ast.Mult) and isinstance(n.value, ast.Attribute) \
+                        and isinstance(n.value.value, ast.Name) and n.value.value.id == selfn:
+                    return n.value.attr
+                if isinstance(n, ast.Assign) and isinstance(n.value, ast.BinOp) and isinstance(n.value.op, ast.Mult):
+                    for side in (n.value.left, n.value.right):
+                        if isinstance(side, ast.Attribute) and isinstance(side.value, ast.Name) and \
+                                side.value.id == selfn:
+                            return side.attr
         raise AnalysisError(f'{self.forward.short}: radix attribute of the digit extraction not found')
 
 
